@@ -65,7 +65,11 @@ def mon (st : St) (op : List String) (outs : List (List String)) : St × List St
                             | _ => st3.sinceMiner + 1) }
     let failed := outs.any (fun o => o.take 2 = ["factory", "dial"] && o.getLast? == some "refused")
     -- clauses
-    let c1 := if runs ≤ 1 ∧ pipes ≤ 1 then [] else [s!"C13 more than one relay loop: {runs} Proxy.Run and {pipes} Pipe.Run goroutines"]
+    let relayL := (outs.find? (·.head? = some "relay")).getD []
+    let s2d := parseNat (kvGet relayL "s2d")
+    let d2s := parseNat (kvGet relayL "d2s")
+    let c1 := (if runs ≤ 1 ∧ pipes ≤ 1 then [] else [s!"C13 more than one relay loop: {runs} Proxy.Run and {pipes} Pipe.Run goroutines"]) ++
+      (if s2d ≤ 1 ∧ d2s ≤ 1 then [] else [s!"C13 more than one relay loop: {s2d} goroutines read the miner's connection, {d2s} relay from a pool"])
     -- "plus one being established during a switch": a change of destination is in progress from the dial until the
     -- miner has been given the new destination's job (clean notify) — it may wait for a pool answer in between
     let announced := outs.any fun o => match o with
